@@ -180,6 +180,8 @@ OPTION_SETS = [
     {'ignore_patterns': [r'\d+']}, {'ignore_patterns': [r'id=\d+']},
     {'ignore_patterns': [r'x\d+$']}, {'ignore_patterns': [r'^id=\d+']},
     {'ignore_patterns': [r'\d+'], 'rstrip': True},
+    # several patterns: one that matches the reference line only comes before the one that excuses the difference
+    {'ignore_patterns': [r'7', r'id=\d+']}, {'ignore_patterns': [r'x1$', r'x\d$']}, {'ignore_patterns': [r'x\d$', r'x1$']},
     {'remove_lines': ['skip']}, {'remove_lines': ['skip'], 'ignore_substrings': ['id=']},
     {'remove_lines': ['skip'], 'ignore_patterns': [r'id=\d+']}, {'remove_lines': ['skip'], 'ignore_patterns': [r'x\d+$']},
     {'remove_lines': ['a']},
@@ -388,7 +390,8 @@ def _work(args):
         os.chdir(work)
         fc = FilesComparison(print_fn=None, verbose=False, tmp_dir=tmpdir)
         for A, E, oi in chunk:
-            check_pair(b, fc, A, E, OPTION_SETS[oi], sandbox, props)
+            b.case_guard(props[0], {'actual': A, 'expected': E, 'options': desc_opts(OPTION_SETS[oi])},
+                         lambda: check_pair(b, fc, A, E, OPTION_SETS[oi], sandbox, props))
     finally:
         os.chdir(cwd)
         shutil.rmtree(sandbox, ignore_errors=True)
@@ -535,6 +538,8 @@ def run_entry_points(b, tier, seed, props):
         # a single differing byte at every offset 0..6 of a 7-byte file, and a longer file with a late difference
         base7 = b'0123456'
         blobs += [base7] + [base7[:i] + b'X' + base7[i + 1:] for i in range(7)] + [base7 * 40, base7 * 39 + b'012345Y']
+        # one file is the tail (not the head) of the other: the first difference is at offset 0, not at the shorter length
+        blobs += [base7[3:], base7[6:], (base7 * 40)[101:]]
         for eb in blobs:
             for ab in blobs:
                 refp = os.path.join(refdir, 'r.bin')
